@@ -44,7 +44,7 @@ CHECKS['C10'] = ('One whole build job (real start_self, the script as an input, 
   'run must not walk away from the target as if it were a user file, must not have lost dirtiness, and must remove a stale temporary file '
   'before the script starts. Power loss (synchronous=off), kills inside SQLite, locks and multi-process trees are outside.',
   BUILD_NOTE, 'DESIGN.md §5 C10')
-CHECKS['C11'] = ('For EVERY prior Files row (all columns symbolic, under the invariant generated => stamp recorded), filesystem state of the '
+CHECKS['C11'] = ('For EVERY prior Files row (all columns symbolic, no representation invariant assumed), filesystem state of the '
   'target, placement of .do files and stale temporary file: the real BuildJob::start_self never starts a script for, and never unlinks / '
   'renames / creates, an existing file that is not generated, is marked overridden, or whose recorded stamp differs from the disk in mtime '
   'or size; it answers success, and the committed row no longer calls it a target; once such a file is absent the job is started again; '
